@@ -358,13 +358,26 @@ static void rowops_step(mzd_t *A) {
   }
 }
 
-static void combine_case(void) {
+/* sw >= 0: sweep case - width, residue, in-place flag and the word-offset parities of C/A and B are prescribed */
+static void combine_case_sw(int sw) {
   int w = vh_randint(1, 6), n = 64 * w - vh_pick((int[]){0, 0, 1, 63}, 4);
+  int inplace = vh_randint(0, 1), offa = -1, offb = -1;
+  if (sw >= 0) {
+    w = 1 + sw % 6; sw /= 6;
+    n = 64 * w - (int[]){0, 1, 63}[sw % 3]; sw /= 3;
+    inplace = sw % 2; sw /= 2;
+    offa = sw % 2; sw /= 2;
+    offb = sw % 2;
+  }
   if (n < 1) n = 1;
   int m = vh_randint(1, 4);
-  mzd_t *A = vh_mk_kind(m, n, 0), *B = vh_mk_kind(m, n, 0);
-  int inplace = vh_randint(0, 1);
+  if (vh_views && offa >= 0) vh_force_w0 = offa + 2 * vh_randint(0, 1);
+  mzd_t *A = vh_mk_kind(m, n, 0);
+  if (vh_views && offb >= 0) vh_force_w0 = offb + 2 * vh_randint(0, 1);
+  mzd_t *B = vh_mk_kind(m, n, 0);
+  if (vh_views && offa >= 0) vh_force_w0 = offa;
   mzd_t *C = inplace ? A : vh_mk_kind(m, n, 0);
+  vh_force_w0 = -1;
   int sb = vh_randint(0, A->width - 1);
   int cr = vh_randint(0, m - 1), ar = inplace ? cr : vh_randint(0, m - 1), br = vh_randint(0, m - 1);
   vh_ev_t e;
@@ -377,6 +390,7 @@ static void combine_case(void) {
   vh_post(&e);
   vh_free_all();
 }
+static void combine_case(void) { combine_case_sw(-1); }
 
 int fam_rowops(const vh_args_t *a) {
   int ncases = a->cases ? a->cases : (a->tier ? 6000 : 1200);
@@ -395,6 +409,17 @@ int fam_rowops(const vh_args_t *a) {
       for (int s = 0; s < depth; s++) rowops_step(A);
       vh_free_all();
     }
+    VH_CASE_END
+  }
+  if (strstr(a->extra, "nosweep")) return 0;
+  /* row combination: every row width 1..6 words x residue x in-place x alignment of destination and source
+   * (the SSE2 paths depend on the 16-byte alignment of the row starts, i.e. on the word offsets of windows) */
+  for (long sw = 0; sw < 6 * 3 * 2 * 2 * 2; sw++) {
+    long sidx = 3000000 + sw;
+    if (!VH_SHARD(a, sidx)) continue;
+    vh_case_seed(a, sidx);
+    VH_CASE(sidx)
+    combine_case_sw((int)sw);
     VH_CASE_END
   }
   return 0;
